@@ -41,9 +41,15 @@ def observe(case):
     from vyxal.context import Context
     from vyxal.elements import quotify
 
+    runtime_v = None
+    if ctxi >= 100:
+        # the RUN-TIME route: the string is on the stack, the quote element quotes it and Vyxal-exec evaluates the
+        # quoted text under the run's own flags (ctxi - 100: 0 = none, 1 = flag V, one-character variable names)
+        runtime_v = ctxi - 100
+        ctxi = 0
     try:
         q0 = quotify(s, Context())
-        q = CONTEXTS[ctxi].replace("□", q0)
+        q = CONTEXTS[ctxi].replace("□", q0) if runtime_v is None else q0 + "qĖ"
     except Exception as e:  # noqa: BLE001
         return {"s": cps(s), "q": [], "vals": [], "err": "quotify:" + type(e).__name__}
     try:
@@ -55,7 +61,11 @@ def observe(case):
                     common.with_alarm(lambda _: runner.exec_text(q, dict_compress=True), None, 3)
                 except BaseException:  # noqa: BLE001
                     pass
-            stack, ctx, err = common.with_alarm(lambda _: runner.exec_text(q, dict_compress=dc), None, 5)
+            rctx = None
+            if runtime_v:
+                rctx = Context()
+                rctx.variable_length_1 = True
+            stack, ctx, err = common.with_alarm(lambda _: runner.exec_text(q, dict_compress=dc, ctx=rctx), None, 5)
     except common.CaseTimeout:
         return {"s": cps(s), "q": cps(q0), "vals": [], "err": "hang"}
     except BaseException as e:  # noqa: BLE001
@@ -101,6 +111,12 @@ def main(tier):
                 continue
         inner.append((sv, dc, 1 + i % (len(CONTEXTS) - 1)))
     cs += inner
+    # the run-time route (quote element + Vyxal-exec) under each combination of the flags D and V
+    base = [c for c in cs if len(c) == 2]
+    for i, (sv, dc) in enumerate(base):
+        if len(sv) <= 3 or i % 5 == 0:
+            cs.append((sv, dc, 100))
+            cs.append((sv, dc, 101))
     with common.Scratch(PID) as s:
         mc = tlc.model_check(s, "MC_Quote", cfg="MC_Quote", workers=16)
         if not mc["ok"]:
@@ -113,8 +129,9 @@ def main(tier):
     for (sv, dc, *cx), v, o in zip(cs, verdicts, obs):
         tally[v] = tally.get(v, 0) + 1
         if v.startswith("violation"):
-            V.add(f"{v.split(':', 1)[1]}:{sv!r}:compression={'on' if dc else 'off'}" + (f":in:{CONTEXTS[cx[0]]}" if cx else ""),
-                  {"string": sv, "dictionary_compression": dc, "quoted": common.uncps(o["q"]), "context": CONTEXTS[cx[0]] if cx else "□",
+            cxn = ("" if not cx else "run-time route" + (" flag V" if cx[0] == 101 else "") if cx[0] >= 100 else CONTEXTS[cx[0]])
+            V.add(f"{v.split(':', 1)[1]}:{sv!r}:compression={'on' if dc else 'off'}" + (f":in:{cxn}" if cx else ""),
+                  {"string": sv, "dictionary_compression": dc, "quoted": common.uncps(o["q"]), "context": cxn or "□",
                    "pushed": [common.uncps(x) if x != [-1] else "<non-string>" for x in o["vals"]], "err": o["err"]})
         elif v.startswith("drift"):
             V.add_drift({"string": sv, "verdict": v})
